@@ -375,7 +375,8 @@ def main(argv):
                             continue
                         if tag[0] == "W" and abs(a) < 1e-18 and abs(b) < 1e-18:
                             continue        # an unexcited problem: the energy is rounding noise
-                        dv = abs(a - b) / max(abs(b), 1e-9 * ref_scale, 1e-300)
+                        # a potential is compared against the potential scale of the problem, not against its own (possibly tiny) value
+                        dv = abs(a - b) / max(abs(b), 1e-9 * ref_scale, 1e-300) if not (tag[0] == "P" and ii == 0) else abs(a - b) / (scl * 100)
                         stats["worst_value_diff"] = max(stats["worst_value_diff"], dv)
                         if dv > 1e-5:
                             bad = True
